@@ -77,8 +77,19 @@ def remap_curie_prefixes(converter: Converter, remapping: Mapping[str, str]) -> 
                 new_record,
             )
         elif old in intersection:
+            # the old prefix is only given up if it is handed over to another record, i.e.,
+            # if a pair mapping onto it is going to be applied later. The previous
+            # canonical prefix is always kept as a synonym.
+            handed_over = any(
+                key in converter.synonym_to_prefix
+                for key, value in remapping.items()
+                if value == old
+            )
             record.prefix_synonyms = sorted(
-                set(record.prefix_synonyms).difference({old, new_prefix})
+                set(record.prefix_synonyms)
+                .union({record.prefix})
+                .difference({old} if handed_over else set())
+                .difference({new_prefix})
             )
             record.prefix = new_prefix
         else:
